@@ -63,6 +63,14 @@ var scenarios = []scenario{
 		alice("J1", "1 FAMS @G1@") + boris("J2", "1 FAMS @G1@") + clara("J3", "1 FAMC @G1@") + "0 @G1@ FAM\n1 HUSB @J2@\n1 WIFE @J1@\n1 CHIL @J3@\n",
 		"families on both sides: Document.Families, FamilyNode.Husband/Wife, IndividualNode.Families/Spouses, DateNode caches touched by several workers"},
 	{"S9", alice("I1") + alice("I1"), alice("I1"), "two left individuals with the same pointer: check-then-act on sentB between pointer workers"},
+	{"S10",
+		indi("I1", "Alice /Archer/", "3 Mar 1801", "", uidA) + indi("I2", "Boris /Bellamy/", "17 Jul 1805", "", uidB) + indi("I3", "Clara /Coombes/", "29 Nov 1830", "", "1 _UID CC13561DDB204985BFFDEEBF82A5226C5B2E"),
+		indi("J1", "Xavier /Quill/", "1 Jan 1900", "", uidA) + indi("J2", "Yolanda /Rook/", "2 Feb 1910", "", uidB) + indi("J3", "Zed /Stone/", "3 Mar 1920", "", "1 _UID CC13561DDB204985BFFDEEBF82A5226C5B2E"),
+		"three pairs that match by unique identifier only (names and dates are far apart): every left individual must be visited by the unique-id stage whatever Jobs is"},
+	{"S11",
+		indi("P1", "Alice /Archer/", "3 Mar 1801", "") + indi("P2", "Boris /Bellamy/", "17 Jul 1805", "") + indi("P3", "Clara /Coombes/", "29 Nov 1830", ""),
+		indi("P1", "Alice /Archer/", "3 Mar 1802", "") + indi("P2", "Boris /Bellamy/", "17 Jul 1806", "") + indi("P3", "Clara /Coombes/", "29 Nov 1831", ""),
+		"three pairs with equal pointers and a one-year date difference: the pointer stage must visit every left individual"},
 }
 
 type config struct {
@@ -551,7 +559,7 @@ func main() {
 	vlib.Main(&vlib.Check{
 		ID:    "C11",
 		Level: "model_checking",
-		Rule: "executions of the real, instrumented IndividualNodes.Compare under the vsched cooperative scheduler: for every scenario (12 tiny colliding input pairs) x configuration (Jobs, thresholds, channel capacity 1, sync.Map range order, base scheduler) every schedule with at most d deviations from the default scheduler (delay bounding; d per configuration) is run to completion and judged: termination, valid one-to-one matching, justified pairs, equality with the sequential result when tie-free, vector-clock data-race monitor. " +
+		Rule: "executions of the real, instrumented IndividualNodes.Compare under the vsched cooperative scheduler: for every scenario (14 tiny colliding input pairs) x configuration (Jobs, thresholds, channel capacity 1, sync.Map range order, base scheduler) every schedule with at most d deviations from the default scheduler (delay bounding; d per configuration) is run to completion and judged: termination, valid one-to-one matching, justified pairs, equality with the sequential result when tie-free, vector-clock data-race monitor. " +
 			"states = distinct global operation traces (hash of the sequence of scheduled operations); distinct_nontrivial counts the same.",
 		Assumptions: []string{
 			"scheduling points sit at the hooked synchronisation operations (go, channel send/receive/close/select, sync.Mutex/WaitGroup/Map, time.Sleep as a yield); for race-free code this covers every behaviour of the Go memory model within the deviation bound; data races are reported by the happens-before monitor instead of being explored",
